@@ -1373,6 +1373,12 @@ class Skel:
                 raise Unsupported("unknown name %s" % e.id)
             return [], cname(e.id), env[e.id]
         if isinstance(e, ast.Attribute):
+            root = e
+            while isinstance(root, ast.Attribute):
+                root = root.value
+            if isinstance(root, ast.Name) and root.id not in env and ast.unparse(e).replace(".", "").replace("_", "").isalnum():
+                # a dotted name of another module (a function passed as a value): a named constant
+                return [], '(vglobal "%s")' % ast.unparse(e), "V"
             b, c, t = self.expr(e.value, env)
             if t != "V":
                 raise Unsupported("attribute of a %s" % t)
@@ -1395,6 +1401,8 @@ class Skel:
             b1, c1, t1 = self.expr(e.left, env)
             b2, c2, t2 = self.expr(e.comparators[0], env)
             op = type(e.ops[0])
+            if t1 == "V" and t2 == "V" and op in (ast.Is, ast.IsNot) and ast.unparse(e.comparators[0]) == "None":
+                return b1 + b2, ("(is_none %s)" if op is ast.Is else "(negb (is_none %s))") % c1, "bool"
             if t1 == "V" and t2 == "V":
                 if op is ast.Eq:
                     return b1 + b2, "(veq %s %s)" % (c1, c2), "bool"
@@ -1415,7 +1423,15 @@ class Skel:
             if op not in tbl or t1 != "Z" or t2 != "Z":
                 raise Unsupported("comparison %s" % ast.unparse(e))
             return binds, tbl[op] % (c1, c2), "bool"
-        if isinstance(e, (ast.ListComp, ast.JoinedStr)) or (isinstance(e, ast.Constant) and isinstance(e.value, str)):
+        if isinstance(e, ast.Constant) and isinstance(e.value, bool):
+            return [], ("vtrue" if e.value else "vfalse"), "V"
+        if isinstance(e, ast.Subscript) and not isinstance(e.slice, (ast.Slice, ast.Tuple, ast.Constant)):
+            # x[i] with a computed index: a (logged) read that may raise IndexError / KeyError
+            b1, c1, t1 = self.expr(e.value, env)
+            b2, c2, t2 = self.expr(e.slice, env)
+            v = self.fresh()
+            return b1 + b2 + [(v, 'call oracle "getitem" [%s; %s]' % (self.toV(c1, t1), self.toV(c2, t2)))], v, "V"
+        if isinstance(e, (ast.ListComp, ast.JoinedStr, ast.List, ast.Dict)) or (isinstance(e, ast.Constant) and isinstance(e.value, str)):
             # an expression outside the subset whose value only flows on: one uninterpreted (logged) operation on its free variables
             bound = set()
             for n in ast.walk(e):
@@ -1464,6 +1480,8 @@ class Skel:
                     if isinstance(t, ast.Name):
                         add(t.id)
                     elif isinstance(t, ast.Attribute) and isinstance(t.value, ast.Name):
+                        add(t.value.id)
+                    elif isinstance(t, ast.Subscript) and isinstance(t.value, ast.Name):
                         add(t.value.id)
                     elif isinstance(t, ast.Tuple) and all(isinstance(x, ast.Name) for x in t.elts):
                         for x in t.elts:
@@ -1542,6 +1560,12 @@ class Skel:
                     env2[x.id] = "V"
                     code += 'let %s := (getattr %s "[%d]") in\n  ' % (cname(x.id), c, k_)
                 return self.wrap(b, code + nxt(env2))
+            if isinstance(tgt, ast.Subscript) and isinstance(tgt.value, ast.Name) and env.get(tgt.value.id) == "V" \
+                    and not isinstance(tgt.slice, (ast.Slice, ast.Tuple)):
+                # x[i] = v : rendered as the call "setitem" [x; i; v] returning the updated x (x is referenced through this name only)
+                o = cname(tgt.value.id)
+                bi, ci, ti = self.expr(tgt.slice, env)
+                return self.wrap(b + bi, '%s <<- call oracle "setitem" [%s; %s; %s] ;;\n  %s' % (o, o, self.toV(ci, ti), self.toV(c, t), nxt(env)))
             if isinstance(tgt, ast.Attribute) and isinstance(tgt.value, ast.Name) and env.get(tgt.value.id) == "V":
                 o = cname(tgt.value.id)
                 return self.wrap(b, '%s <<- call oracle "setattr:%s" [%s; %s] ;;\n  %s' % (o, tgt.attr, o, self.toV(c, t), nxt(env)))
@@ -1566,6 +1590,32 @@ class Skel:
             kk = lambda e2: "mret %s" % t_   # noqa: E731
             return self.wrap(b, "%s <<- (if %s then\n  %s\n  else\n  %s) ;;\n  %s" % (
                 p_, c, self.block(s.body, env, kk, None), self.block(s.orelse, env, kk, None), nxt(env)))
+        if isinstance(s, ast.For) and not s.orelse and not (isinstance(s.iter, ast.Call) and ast.unparse(s.iter.func) == "range") \
+                and not any(isinstance(n, (ast.Break, ast.Continue)) for n in ast.walk(s)):
+            # for x in <opaque iterable> (no break): the iterable is evaluated (a logged call if it is one), then the body runs
+            # once per element of  as_list <iterable>  in order
+            b, c, t = self.expr(s.iter, env)
+            if t != "V":
+                raise Unsupported("iteration over a %s" % t)
+            state = [n for n in self.assigned(s.body) if n in env]
+            t_, p_ = self.tup(state)
+            env_b = dict(env)
+            item = self.fresh()
+            pre = ""
+            if isinstance(s.target, ast.Name):
+                env_b[s.target.id] = "V"
+                item = cname(s.target.id)
+            elif isinstance(s.target, ast.Tuple) and all(isinstance(x, ast.Name) for x in s.target.elts):
+                for k_, x in enumerate(s.target.elts):
+                    env_b[x.id] = "V"
+                    pre += 'let %s := (getattr %s "[%d]") in\n  ' % (cname(x.id), item, k_)
+            else:
+                raise Unsupported("loop target")
+            self.depth += 1
+            body = self.block(s.body, env_b, lambda e2: "mret %s" % t_, None)
+            self.depth -= 1
+            return self.wrap(b, "%s <<- for_each (fun %s %s =>\n  %s%s) (as_list %s) %s ;;\n  %s" % (
+                p_, p_ if p_ != "_" else "_", item, pre, body, c, t_, nxt(env)))
         if isinstance(s, ast.For):
             if s.orelse or not (isinstance(s.iter, ast.Call) and ast.unparse(s.iter.func) == "range" and len(s.iter.args) == 1 and not s.iter.keywords):
                 raise Unsupported("loop form")
@@ -1662,6 +1712,10 @@ Section Gen.
   Variable veq : V -> V -> bool.
   Variable getattr : V -> string -> V.
   Variable truthy : V -> bool.
+  Variable is_none : V -> bool.
+  Variables vtrue vfalse : V.
+  Variable as_list : V -> list V.
+  Variable vglobal : string -> V.
   Variable oracle : list (event V) -> string -> list V -> res V.
 
 """
@@ -1671,7 +1725,12 @@ SKEL_TARGETS = {"main_loop": ("main_loop.py", "fit_stacked_data", "bayesian_ic",
                 "solver_loop": ("admm/solver.py", "run_admm_optimization", None, []),
                 # the two public entry points: argument bundling, stacking, error mapping, main loop, label plumbing
                 "front_single": ("front_end.py", "ticc_labels", None, []),
-                "front_joint": ("front_end.py", "ticc_joint_labels", None, [])}
+                "front_joint": ("front_end.py", "ticc_joint_labels", None, []),
+                # the optimise phase: scatter of the per-cluster tasks and gather of their results
+                "gl_optimize": ("graphical_lasso.py", "optimize_markov_random_fields", None, []),
+                "gl_setup": ("graphical_lasso.py", "_setup_optimization_task", None, []),
+                "gl_retrieve": ("graphical_lasso.py", "_retrieve_optimization_results", None, []),
+                "gl_update": ("graphical_lasso.py", "_update_cluster_covariances", None, [])}
 
 
 def translate_skeleton(mod, src_root):
